@@ -80,7 +80,7 @@ theorem addWF_nofault (fc : FCfg) (mk : Mk) (s : FSt) (h : s.rs = []) (hd : s.w.
   split
   · have := flushWF_nofault fc mk { s with w := s.w.push e sz } h hd
       (hs.imp id (fun hl => by simp [WSt.push]; omega))
-    exact ⟨this.1, this.2.1, this.2.2.1⟩
+    cases fc.addReportsFlushError <;> exact ⟨this.1, this.2.1, this.2.2.1⟩
   · exact ⟨rfl, rfl, h⟩
 
 theorem addManyWF_nofault (fc : FCfg) (mk : Mk) (items : List (Op × Nat)) : ∀ (s : FSt), s.rs = [] → s.w.dirty = false →
